@@ -36,7 +36,7 @@ class Job:
                  unwind=None, label="proof", defines=None, min_post=1, min_lis=0,
                  timeout=900, tiers=("quick", "thorough"), solver=None, note="",
                  replay=None, objbits=None, extra_cbmc=(), fallback=True, maxw=None,
-                 expect_fail=(), src=None, unwindset=None, cost=10, family=None, optional=False, canary_from=None, split=0, loop_contracts=True, drop_checks=(), plain_loop_contracts=False):
+                 expect_fail=(), src=None, unwindset=None, cost=10, family=None, optional=False, canary_from=None, split=0, loop_contracts=True, drop_checks=(), plain_loop_contracts=False, fallback_plain=None):
         self.name = name; self.driver = driver; self.entry = entry
         self.enforce = enforce; self.replace = list(replace); self.mode = mode
         self.unwind = unwind; self.label = label; self.defines = dict(defines or {})
@@ -44,7 +44,7 @@ class Job:
         self.tiers = tiers; self.solver = solver; self.note = note; self.replay = replay
         self.objbits = objbits; self.extra_cbmc = list(extra_cbmc); self.fallback = fallback
         self.maxw = maxw; self.expect_fail = list(expect_fail); self.src = src
-        self.unwindset = unwindset; self.cost = cost; self.family = family; self.optional = optional; self.canary_from = canary_from; self.split = split; self.loop_contracts = loop_contracts; self.drop_checks = tuple(drop_checks); self.plain_loop_contracts = plain_loop_contracts
+        self.unwindset = unwindset; self.cost = cost; self.family = family; self.optional = optional; self.canary_from = canary_from; self.split = split; self.loop_contracts = loop_contracts; self.drop_checks = tuple(drop_checks); self.plain_loop_contracts = plain_loop_contracts; self.fallback_plain = fallback_plain
 
     def maxw_for(self, tier):
         if self.maxw is not None:
@@ -246,10 +246,19 @@ def execute(job, tier, builddir, maxw, solver, log):
         return gb
 
     main_bin = build(False, "")
+    unwind = job.unwind if job.mode in ("unwind", "plain") or job.unwind else None
+    fb_defs = ()
+    if main_bin is None and job.fallback_plain:
+        # the loop-contract instrumentation rejected the (changed) code: decide the same harness by unwinding
+        # on a smaller domain instead.  A pass there is only a bounded result => the proof is lost (exit 2).
+        res["fallback_used"] = "loop-contract instrumentation failed: " + "; ".join(res["errors"])[-400:]
+        res["errors"] = []
+        fb_defs = ["-DVERIF_NO_LOOP_CONTRACTS"] + ["-D%s=%s" % kv for kv in job.fallback_plain.get("defines", {}).items()]
+        unwind = job.fallback_plain.get("unwind", unwind)
+        main_bin = build(False, ".fb", fb_defs, loop_contracts=False)
     if main_bin is None:
         res["status"] = "tool-error"
         return res
-    unwind = job.unwind if job.mode in ("unwind", "plain") or job.unwind else None
     cmd = cbmc_cmd(job, main_bin, solver, unwind=unwind)
     res["checker_cmd"] = " ".join(cmd)
     groups = [None]
@@ -333,7 +342,7 @@ def execute(job, tier, builddir, maxw, solver, log):
         res["wall"] = time.time() - t0
         res["_bins"] = {"main": main_bin}
         return res
-    can_bin = build(True, ".c")
+    can_bin = build(True, ".c", fb_defs, loop_contracts=not fb_defs)
     if can_bin is None:
         res["status"] = "tool-error"
         return res
